@@ -2,11 +2,12 @@
 
 T   translator  clang JSON AST of every check class (c27_extract.py, cached by content hash) -> abstract interpreter
                 (c27_guards.py) -> lean/Cppcheck/Gen/SeverityGuards.lean: one row per (emission site, severity, certainty) with
-                a guard formula that is positive in the option atoms.  Fail closed: textual `reportError(` occurrences that no AST
+                a guard formula in which every option test keeps its real polarity.  Fail closed: textual `reportError(` occurrences that no AST
                 call explains, clang failures, changed summaries (Settings::isEnabled(value,...), Value::errorSeverity,
                 isPremiumEnabled, SimpleEnableGroup::isEnabled, flag defaults) are undischarged obligations.
-    theorems    Props/C27.lean: monotone (general, by induction on the formula language), gated / inconclusive_gated / gated_cli
-                over the WHOLE generated table by `decide`, minus the rows listed in corpus/C27/exempt.json (hand-maintained, every
+    theorems    Props/C27.lean: gated_partial / inconclusive_gated_partial / gated_cli_partial and table_positive (no row tests an
+                option for being disabled) are DECIDED over the WHOLE generated table; table_monotone follows from table_positive
+                by monotone_of_positive / posOk_sound (monotone_needs_positive: false without positivity); minus the rows listed in corpus/C27/exempt.json (hand-maintained, every
                 entry with a reason; an entry is either a demonstrated finding with a CLI witness or an unresolved site that only
                 the CLI correspondence decides).  A guard removed in /repo makes its rows ungated -> `decide` fails -> violation
                 search with the CLI.
@@ -32,17 +33,22 @@ RULE = ("case = (input file, exact set of enabled severities among warning/style
         "/repo/test/cfg/*.c*, code snippets mined from the string literals of /repo/test/test*.cpp; a case is non-trivial when the "
         "file reports at least one finding of a gated severity or of inconclusive certainty under the full option set; "
         "distinct = distinct (file content, option set)")
-EXPLANATION = ("Lean: the guard language is positive in the option atoms, so mayReport is monotone (proved for every formula); "
-               "gating of severity and of inconclusive certainty is decided over the whole table extracted from the current source "
-               "(decide), except for the rows of corpus/C27/exempt.json, which are listed in the evidence (undischarged_sites): "
-               "demonstrated findings (CLI witness, known_findings.d/C27.json) and sites whose guard is carried by data the "
-               "dominance analysis cannot see (collections filled under a guard, values created only with --inconclusive, "
-               "errorlist-only branches `if (!tok)`). Those, and every emitter outside lib/check*.cpp (preprocessor, tokenizer, "
-               "symbol database, cppcheck.cpp, addons = C34), are decided by the CLI correspondence only. Outside the model: "
-               "value-dependent alterations of a message between option sets, Checks::unusedFunction / missingInclude (separate "
-               "--enable ids, not severities), --check-library / premium / safe-checks flags (held at their defaults).")
-THEOREMS = ["Cppcheck.SevGate.monotone", "Cppcheck.SevGate.table_monotone", "Cppcheck.SevGate.gated", "Cppcheck.SevGate.gated_cli",
-            "Cppcheck.SevGate.inconclusive_gated", "Cppcheck.SevGate.gated_counterexample", "Cppcheck.SevGate.inconclusive_counterexample",
+EXPLANATION = ("Lean, over the table regenerated from the current source (decide +kernel on every run): (i) gating of severity and "
+               "of inconclusive certainty for every row except those of corpus/C27/exempt.json (theorems *_partial; the unrestricted "
+               "statements are proved false: *_counterexample); (ii) every row is in the positive fragment of the guard language — "
+               "option tests are extracted with their real polarity, an emission under `if (isEnabled(x)) return;` makes "
+               "table_positive fail — hence per-site monotonicity for a fixed environment (table_monotone). The excluded rows are "
+               "listed in the evidence (undischarged_sites): demonstrated findings (CLI witness, known_findings.d/C27.json) and sites "
+               "whose guard is carried by data the dominance analysis cannot see (each with its reason in docs/C27.md). What is NOT "
+               "proved: soundness of the extracted rows w.r.t. the C++ (translator claim, validated by the tie: every observed "
+               "finding must be possible for a row; tie_coverage says how many rows were exercised); monotonicity ACROSS checks "
+               "(a finding suppressed because another check reported the token first, diag()): CLI correspondence only, three "
+               "known findings; 'alters a finding': sampled only. Emitters outside lib/check*.cpp (preprocessor, tokenizer, symbol "
+               "database, cppcheck.cpp; addons = C34): CLI only. Checks::unusedFunction / missingInclude, --check-library, premium and "
+               "safe-checks flags are held at their defaults.")
+THEOREMS = ["Cppcheck.SevGate.gated_partial", "Cppcheck.SevGate.gated_cli_partial", "Cppcheck.SevGate.inconclusive_gated_partial",
+            "Cppcheck.SevGate.table_positive", "Cppcheck.SevGate.table_monotone", "Cppcheck.SevGate.monotone_of_positive",
+            "Cppcheck.SevGate.monotone_needs_positive", "Cppcheck.SevGate.gated_counterexample", "Cppcheck.SevGate.inconclusive_counterexample",
             "Cppcheck.SevGate.possible_of_mayReport"]
 MODULES = ["Cppcheck.Props.C27"]
 
@@ -185,7 +191,7 @@ def build_table(fresh=False):
         r["idx"] = i
     flag_lits = sorted(set(l[1] for r in table for c in r["f"] for l in c if l[0] == 'l'))
     syms = sorted(set([r["ls"][1] for r in table if r["ls"][0] == 'sym'] +
-                      [l[1][1] for r in table for c in r["f"] for l in c if l[0] == 'o' and l[1][0] == 'sym']))
+                      [l[1][1] for r in table for c in r["f"] for l in c if l[0] in ('o', 'n') and l[1][0] == 'sym']))
     problems += check_summaries(flag_lits)
     # per-row verdicts (mirrors the Lean decision procedures; Lean decides, this only names the rows)
     for r in table:
@@ -231,6 +237,13 @@ def gen_lean(table, flag_lits, syms, exempt):
             if a[0] == 'sym':
                 return "enSym %d" % symidx[a[1]]
             return "inc"
+        if l[0] == 'n':
+            a = l[1]
+            if a[0] == 'sev':
+                return "nen .%s" % a[1]
+            if a[0] == 'sym':
+                return "nenSym %d" % symidx[a[1]]
+            return "ninc"
         return ".lit %d %s" % (litidx[l[1]], "true" if l[2] else "false")
 
     def fm(f):
@@ -268,13 +281,17 @@ def gen_lean(table, flag_lits, syms, exempt):
     out.append("/-- … of which still excluded when the option set is closed as the command line closes --enable=style -/")
     out.append("def exemptGateCli : List Nat := %s" % egc)
     out.append("def exemptInc : List Nat := %s" % ei)
+    ep = sorted(r["idx"] for r in table if r["key"] in exempt["pos"])
+    out.append("/-- rows excluded from `table_positive` / `table_monotone` (entries `what: pos` of exempt.json) -/")
+    out.append("def exemptPos : List Nat := %s" % ep)
     out.append("end Cppcheck.Gen.SeverityGuards")
     return "\n".join(out) + "\n"
 
 
 def exempt_sets():
     ent = load_exempt()
-    return dict(gate=set(e["key"] for e in ent if e.get("what") == "gate"), inc=set(e["key"] for e in ent if e.get("what") == "inc"), entries=ent)
+    return dict(gate=set(e["key"] for e in ent if e.get("what") == "gate"), inc=set(e["key"] for e in ent if e.get("what") == "inc"),
+                pos=set(e["key"] for e in ent if e.get("what") == "pos"), entries=ent)
 
 
 
@@ -659,7 +676,7 @@ TEST_OF = {"checkother": ["other", "incompletestatement", "charvar"], "checkclas
            "checkunusedfunctions": ["unusedfunctions"]}
 
 
-def guided_batches(new_gate, new_inc):
+def guided_batches(new_gate, new_inc, new_pos=()):
     """violation search for sites that lost their guard: every snippet mined from the test file(s) of the check's source file, under
     the option sets that would expose the missing guard (everything but the row's severity / everything but --inconclusive)"""
     out = []
@@ -676,6 +693,11 @@ def guided_batches(new_gate, new_inc):
         for t in tests:
             want.setdefault(t, set()).add(o)
             want[t].add(((), True))
+    for r in new_pos:
+        # a disabled-option test: look for "enabling more reports less" on every covering pair of the closed lattice
+        base = os.path.basename(r["site"][0]).rsplit(".", 1)[0]
+        for t in TEST_OF.get(base, [base[5:]] if base.startswith("check") else []):
+            want.setdefault(t, set()).update(all_optsets(True))
     sn = mined_snippets()
     for t, opts in sorted(want.items()):
         sel = [s for s in sn if s[1] == t][:900]
@@ -694,6 +716,9 @@ def witness_batches():
     b = Batch("witnesses", [(w["file"], w["code"]) for w in ws])
     b.witnesses = ws
     return [b]
+
+
+TIE_COVERAGE_FLOOR = 0.6     # thorough tier: at least this fraction of the rows the gating theorems speak about must be exercised
 
 
 def id_matches(pats, fid):
@@ -743,6 +768,24 @@ def tie_check(ctx, res, table, observations):
               (len(unexplained), "\n".join(unexplained[:20])))
     res.extra["findings_outside_table"] = dict(outside)
     res.extra["tie_groups"] = len(meta)
+    # coverage of the tie: which rows that the gating theorems speak about were exercised by the corpus at all?  A row whose id /
+    # severity / certainty was never observed rests on the translator alone (a guard that is too STRONG would go unnoticed there).
+    full = mask_of(GATED, True)
+    seen_full = set((fid, sev, finc) for (fid, sev, finc, mask) in observations if mask == full)
+    seen_any = set((fid, sev, finc) for (fid, sev, finc, mask) in observations)
+    ex = exempt_sets()
+    spoken = [r for r in table if not r["dead"] and
+              (((r["ls"][0] == 'sym' or r["ls"][1] in GATED) and r["key"] not in ex["gate"]) or
+               (r["cert"] == "inconclusive" and r["key"] not in ex["inc"]))]
+    def hit(r, pool):
+        return any(id_matches(r["site"][3], fid) and (r["ls"][0] == 'sym' or r["ls"][1] == sev) and (r["cert"] == "inconclusive") == finc
+                   for (fid, sev, finc) in pool)
+    cov = [r for r in spoken if hit(r, seen_full)]
+    never = ["%s:%s %s" % (os.path.basename(r["site"][0]), r["site"][1], r["key"].split(":", 1)[1]) for r in spoken if not hit(r, seen_any)]
+    res.extra["tie_coverage"] = dict(rows_of_gated_severity_or_inconclusive=len(spoken), observed_under_full_option_set=len(cov),
+                                     fraction=round(len(cov) / max(1, len(spoken)), 3), never_observed=len(never), never_observed_rows=never,
+                                     note="rows never observed rest on the translator alone; quick tier samples 160 snippets, see the thorough evidence")
+    return len(cov), len(spoken)
 
 
 def run(ctx, res):
@@ -758,7 +801,18 @@ def run(ctx, res):
               "rows=%d sites=%d runChecks roots=%d" % (len(table), info["sites"], info["run_checks_roots"]))
     new_gate = [r for r in table if not r["gate_ok"] and r["key"] not in ex["gate"]]
     new_inc = [r for r in table if not r["inc_ok"] and r["key"] not in ex["inc"]]
-    failing_keys = set((r["key"], "gate") for r in table if not r["gate_ok"]) | set((r["key"], "inc") for r in table if not r["inc_ok"])
+    new_pos = [r for r in table if not r["pos_ok"] and r["key"] not in ex["pos"]]
+    failing_keys = set((r["key"], "gate") for r in table if not r["gate_ok"]) | set((r["key"], "inc") for r in table if not r["inc_ok"]) | \
+        set((r["key"], "pos") for r in table if not r["pos_ok"])
+    res.oblig("T:no-emission-dominated-by-a-disabled-option", not new_pos, "translation",
+              "" if not new_pos else "rows whose guard tests an option for being DISABLED (enabling it removes the finding) and that "
+              "corpus/C27/exempt.json does not list:\n" +
+              "\n".join("%s:%s %s %s" % (r["site"][0], r["site"][1], r["key"], [sorted(map(str, c)) for c in r["f"] if any(l[0] == 'n' for l in c)][:2])
+                        for r in new_pos[:20]))
+    dead_rows = ["%s:%s %s" % (r["site"][0], r["site"][1], r["key"]) for r in table if r["dead"]]
+    res.extra["rows_with_unsatisfiable_guard_under_default_flags"] = dict(
+        count=len(dead_rows), note="satisfy gated / table_monotone vacuously (reachable only with premium / --check-library / daca / "
+        "debug-warnings flags)", list=dead_rows)
     stale = [e["key"] + "/" + e["what"] for e in ex["entries"] if (e["key"], e["what"]) not in failing_keys]
     res.oblig("T:no-ungated-site-outside-the-exclusion-list", not new_gate and not new_inc, "translation",
               "" if not (new_gate or new_inc) else "sites without an established guard that corpus/C27/exempt.json does not list:\n" +
@@ -772,20 +826,31 @@ def run(ctx, res):
                                            unresolved=sum(1 for u in und if u["cls"] != "finding"), list=und,
                                            exclusion_entries_now_discharged=stale)
     res.extra["translate_s"] = round(time.time() - t0, 1)
+    res.assumptions += [
+        "rows are sound: each guard is implied by the execution of its site (claim of the python abstract interpreter over clang dumps; "
+        "validated by correspondence:findings-possible-in-table, not proved)",
+        "const member functions / fields of const objects and ValueFlow::Value accessors are pure between two reads of one variable version",
+        "every Settings object a check reads is the settings of the run; cppcheck itself does not dereference null pointers "
+        "(a pointer compared with nullptr and found null is not dereferenced afterwards)",
+        "the %d Settings flags that occur in guards (premium ids, checkLibrary, daca, debugwarnings, clang, safeChecks.classes) have their "
+        "default value false (hypothesis defaultsHold of every theorem)" % len(flag_lits),
+        "free functions called from the check classes do not emit findings themselves (textual cross-check on `reportError(`)",
+        "table_monotone is per site for a fixed environment: suppression between checks (diag()) is outside the model",
+    ]
     # ---- theorems ------------------------------------------------------------------------------------------------------
     core.prove(ctx, res, MODULES, THEOREMS)
     # the python mirror that names rows must agree with the decisions Lean takes (compiled driver over the same Gen table)
     drv = ctx.driver("drv_c27")
     rc, outl, err = core.run_lines(drv, [], ["N"] + ["V %d" % r["idx"] for r in table])
-    exp = ["%d %d" % (len(table), len(flag_lits))] + ["%d%d%d" % (r["gate_ok"], r["gate_ok_cli"], r["inc_ok"]) for r in table]
-    got = [outl[0]] + [x[:3] for x in outl[1:]] if outl else []
+    exp = ["%d %d" % (len(table), len(flag_lits))] + ["%d%d%d%d" % (r["gate_ok"], r["gate_ok_cli"], r["inc_ok"], r["pos_ok"]) for r in table]
+    got = [outl[0]] + [x[:4] for x in outl[1:]] if outl else []
     diff = [i for i in range(min(len(exp), len(got))) if exp[i] != got[i]]
     res.oblig("T:row-verdicts-agree-with-lean", len(got) == len(exp) and not diff, "translation",
               "" if (len(got) == len(exp) and not diff) else "lengths %d/%d first differences %s %s" % (len(got), len(exp), diff[:5], err[-200:]))
     # ---- corpus and the real binary -------------------------------------------------------------------------------------
     wb = witness_batches()
     batches = wb + sample_batches(rng, thorough) + cfg_batches(rng, thorough) + snippet_batches(rng, thorough)
-    guided = guided_batches(new_gate, new_inc)
+    guided = guided_batches(new_gate, new_inc, new_pos)
     res.extra["guided_search_files"] = sum(len(b.files) for b in guided)
     batches += guided
     for b in batches:
@@ -857,7 +922,11 @@ def run(ctx, res):
                     bad.append("%s: [%s] reported with enabled={%s}%s" % (w["name"], fid, ",".join(o[0]), " --inconclusive" if o[1] else ""))
     res.oblig("C:repaired-findings-stay-gated", not bad, "correspondence", "\n".join(bad[:10]))
     # ---- tie: table vs implementation ------------------------------------------------------------------------------------
-    tie_check(ctx, res, table, observations)
+    tc = tie_check(ctx, res, table, observations)
+    if thorough and tc:
+        res.oblig("C:tie-coverage", tc[0] >= TIE_COVERAGE_FLOOR * tc[1], "correspondence",
+                  "%d of %d rows of a gated severity / inconclusive certainty were observed under the full option set (floor %.0f%%)" %
+                  (tc[0], tc[1], 100 * TIE_COVERAGE_FLOOR))
     if thorough:
         explore_exact(ctx, res, rng)
     res.traces_validated += sum(len(b.results) for b in batches)
